@@ -4,9 +4,9 @@
 # Run it from a COPY of /verif (it regenerates Gen/ from the changed tree); results go to seeded/regress.txt of that copy.
 cd "$(dirname "$0")/.."
 PAT=${1:-C}
-OUT=seeded/regress.txt
+OUT=${2:-seeded/regress.txt}
 : > $OUT
-for d in seeded/${PAT}*/; do
+for d in $(ls -d seeded/C*/ | grep -E "seeded/(${PAT})"); do
   id=$(basename $d)
   [ -f $d/patch.diff ] || continue
   prop=$(python3 -c "import json;print(json.load(open('$d/meta.json'))['property'])")
